@@ -215,7 +215,7 @@ def eliminate_returns(stmts: list[ast.stmt], result: Callable[[ast.AST | None, a
     return out, False
 
 
-def block_form(stmts: list[ast.stmt], result: Callable[[ast.AST | None, ast.stmt], list[ast.stmt]]) -> ast.stmt:
+def block_form(stmts: list[ast.stmt], result: Callable[[ast.AST | None, ast.stmt], list[ast.stmt]]) -> list[ast.stmt]:
     """the general form: the helper body inside a block that a `break` leaves,
 
         while True:                      # marked `_inline_block`: runs exactly once
@@ -247,13 +247,44 @@ def block_form(stmts: list[ast.stmt], result: Callable[[ast.AST | None, ast.stmt
                 raise _Unsupported(f"return inside {type(st).__name__}")
         return out
 
+    last = stmts[-1] if stmts else None
+    if isinstance(last, ast.While) and isinstance(last.test, ast.Constant) and bool(last.test.value) and not last.orelse and _has_return(last) and not any(_has_return(x) for x in stmts[:-1]):
+        # the helper ends in its own `while True:` and only leaves it by returning: that loop IS the block
+        def conv_loop(body: list[ast.stmt]) -> list[ast.stmt]:
+            out: list[ast.stmt] = []
+            for st in body:
+                if isinstance(st, ast.Return):
+                    out += result(st.value, st)
+                    out.append(ast.copy_location(ast.Break(), st))
+                    break
+                if isinstance(st, ast.Break):
+                    out += result(None, st)  # leaving the loop falls off the end of the helper
+                    out.append(st)
+                    break
+                if isinstance(st, ast.If):
+                    out.append(ast.copy_location(ast.If(test=st.test, body=conv_loop(list(st.body)) or [ast.copy_location(ast.Pass(), st)], orelse=conv_loop(list(st.orelse))), st))
+                elif isinstance(st, ast.Try) and not st.finalbody:
+                    hs = [ast.copy_location(ast.ExceptHandler(type=h.type, name=h.name, body=conv_loop(list(h.body)) or [ast.copy_location(ast.Pass(), h)]), h) for h in st.handlers]
+                    out.append(ast.copy_location(ast.Try(body=conv_loop(list(st.body)), handlers=hs, orelse=conv_loop(list(st.orelse)), finalbody=[]), st))
+                elif isinstance(st, ast.With):
+                    out.append(ast.copy_location(ast.With(items=st.items, body=conv_loop(list(st.body))), st))
+                elif _has_return(st):
+                    raise _Unsupported(f"return inside {type(st).__name__} inside the helper's loop")
+                else:
+                    out.append(st)
+            return out
+
+        loop = ast.While(test=last.test, body=conv_loop(list(last.body)), orelse=[])
+        ast.copy_location(loop, last)
+        loop._inline_block = True  # type: ignore[attr-defined]  # (R20.1b: its termination is the helper's own business, judged there)
+        return list(stmts[:-1]) + [loop]
     body = conv(stmts)
     if not _always_leaves_block(body):
         at = stmts[-1] if stmts else ast.Pass()
         body += result(None, at) + [ast.copy_location(ast.Break(), at)]
     blk = ast.While(test=ast.Constant(value=True), body=body, orelse=[])
     blk._inline_block = True  # type: ignore[attr-defined]
-    return blk
+    return [blk]
 
 
 def _always_leaves_block(stmts: list[ast.stmt]) -> bool:
@@ -598,6 +629,20 @@ def _expand(fi: FuncInfo, caller_names: set[str], st: ast.stmt, select: Callable
         return res
 
     thread = None
+
+    def _jumps(stmts: list[ast.stmt]) -> bool:
+        # break / continue that would target a loop OUTSIDE these statements
+        def w(n: ast.AST) -> bool:
+            if isinstance(n, (ast.Break, ast.Continue)):
+                return True
+            if isinstance(n, (ast.For, ast.While, ast.AsyncFor, ast.FunctionDef, ast.AsyncFunctionDef, ast.Lambda, ast.ClassDef)):
+                return False
+            return any(w(c) for c in ast.iter_child_nodes(n))
+        return any(w(x) for x in stmts)
+
+    # (a branch that jumps - break / continue of the caller's loop - cannot be moved into a loop of the inlined body)
+    if follow_if is not None and (_jumps(follow_if.body) or _jumps(follow_if.orelse)) and any(isinstance(n, (ast.For, ast.While)) for n in ast.walk(hn)):
+        follow_if = None
     if follow_if is not None and len(targets) == 1 and isinstance(st, ast.Assign):
         cands = [(None, targets[0])] if isinstance(targets[0], ast.Name) else list(enumerate(targets[0].elts)) if isinstance(targets[0], ast.Tuple) else []
         for pos, t in cands:
@@ -621,12 +666,15 @@ def _expand(fi: FuncInfo, caller_names: set[str], st: ast.stmt, select: Callable
             if not exits and targets:
                 new_body += result(None, st)
         except _NeedBlock:
+            if thread is not None and (_jumps(follow_if.body) or _jumps(follow_if.orelse)):  # type: ignore[union-attr]
+                thread = None  # (the synthetic block is a loop: a threaded break / continue would bind to it)
             try:
-                blk = block_form(renamed_body, result)
+                new_body = block_form(renamed_body, result)
             except _Unsupported:
                 return None
-            ast.copy_location(blk, st)
-            new_body = [blk]
+            for b_ in new_body:
+                if not hasattr(b_, "lineno"):
+                    ast.copy_location(b_, st)
         except _Unsupported:
             return None
     if thread is not None and consumed is not None:
